@@ -89,6 +89,9 @@ def run(ck):
         for d in f.decorators:
             if any(x in d for x in ("lru_cache", "functools.cache", "cached_property", "memoize", "cache")):
                 ck.ob("Q2", f.qualname, "no cache decorator", f.loc(), False, d)
+    from ..structural import hidden_state
+    for where, what in hidden_state(repo, functions=[]):
+        ck.ob("Q2", "package", "no mutable class-level default (a container shared by every instance)", where, False, what)
     ck.ob("Q2", "package", "no global / nonlocal statements, mutable defaults or cache decorators", "pyvaporation/", True,
           "%d functions, %d default values scanned" % (len(repo.all_functions()), n_defaults), sample=True)
     for m in repo.modules.values():
